@@ -451,7 +451,7 @@ func (self *StateDB) createObject(addr common.Address) (newobj, prev *stateObjec
 	if prev == nil {
 		self.journal.append(createObjectChange{account: &addr})
 	} else {
-		self.journal.append(resetObjectChange{prev: prev})
+		self.journal.append(resetObjectChange{account: &addr, prev: prev})
 	}
 	self.setStateObject(newobj)
 	return newobj, prev
